@@ -67,7 +67,15 @@ def run_property(prop, tier, repo=None, write=True):
         for rule in spec["rules"]:
             if tier == "quick" and getattr(rule, "thorough_only", False):
                 continue
-            r = rule(ctx)
+            try:
+                r = rule(ctx)
+            except AnalysisIncomplete as e:
+                # this rule could not be completed: recorded as undecided (exit 2 unless another rule has a
+                # finding to report), the other rules of the property still run
+                from .report import RuleResult
+
+                r = RuleResult(getattr(rule, "__name__", "rule"), "rule could not be completed")
+                r.undecide("analysis incomplete", str(e))
             if isinstance(r, list):
                 results.extend(r)
             else:
